@@ -235,9 +235,15 @@ def run_coq_cases(pid, header, case_terms, check_fn, shard=150, timeout=900):
     d = os.path.join(BUILD, "cases_" + pid)
     subprocess.run(["rm", "-rf", d]); os.makedirs(d)
     files = []
-    for k in range(0, len(case_terms), shard):
-        part = case_terms[k:k + shard]
-        fn = os.path.join(d, "cases_%s_%d.v" % (pid, k // shard))
+    parts = []; cur = []; size = 0
+    for it in case_terms:                      # shards bounded in count and in bytes (big literals stack-overflow coqc)
+        if cur and (len(cur) >= shard or size + len(it[1]) > 120000):
+            parts.append(cur); cur = []; size = 0
+        cur.append(it); size += len(it[1])
+    if cur:
+        parts.append(cur)
+    for k, part in enumerate(parts):
+        fn = os.path.join(d, "cases_%s_%d.v" % (pid, k))
         with open(fn, "w") as f:
             f.write(header + "\n")
             f.write("Definition cases := [\n" + ";\n".join("(%d%%nat, %s)" % (i, t) for i, t in part) + "].\n")
@@ -246,7 +252,7 @@ def run_coq_cases(pid, header, case_terms, check_fn, shard=150, timeout=900):
         files.append(fn)
     listing = os.path.join(d, "files.txt")
     open(listing, "w").write("\n".join(files) + "\n")
-    rc, out = sh("cat %s | xargs -P %d -I{} sh -c 'timeout %d coqc -Q %s/theories TN {} > {}.out 2>&1 || echo FAIL {}'" %
+    rc, out = sh("cat %s | xargs -P %d -I{} sh -c 'ulimit -s unlimited 2>/dev/null; timeout %d coqc -Q %s/theories TN {} > {}.out 2>&1 || echo FAIL {}'" %
                  (listing, NPROC, timeout, COQ), timeout=timeout * 4)
     failing = set(); log = out; total = 0
     for fn in files:
